@@ -1198,7 +1198,7 @@ pub fn rsample_write(seed: u64, count: usize, dir: &std::path::Path) -> Value {
     for (which, sub) in ["acc", "mal", "rej"].iter().enumerate() {
         let d = dir.join(sub);
         std::fs::write(d.join("src/lib.rs"), &libs[which]).unwrap();
-        std::fs::write(d.join("Cargo.toml"), format!("[package]\nname = \"rsample_{sub}\"\nversion = \"0.0.0\"\nedition = \"2021\"\n\n[workspace]\n\n[dependencies]\nlogos = {{ path = \"/repo\" }}\n\n[profile.dev]\ndebug = 0\nincremental = false\n\n[profile.dev.build-override]\nopt-level = 2\n")).unwrap();
+        std::fs::write(d.join("Cargo.toml"), format!("[package]\nname = \"rsample_{sub}\"\nversion = \"0.0.0\"\nedition = \"2021\"\n\n[workspace]\n\n[dependencies]\nlogos = {{ path = \"{repo}\" }}\n\n[profile.dev]\ndebug = 0\nincremental = false\n\n[profile.dev.build-override]\nopt-level = 2\n", repo = crate::repo_root())).unwrap();
         std::fs::create_dir_all(d.join(".cargo")).unwrap();
         std::fs::write(d.join(".cargo/config.toml"), "[net]\noffline = true\n").unwrap();
         let _ = std::fs::copy(format!("{}/harness/Cargo.lock", crate::verif_root()), d.join("Cargo.lock"));
